@@ -35,7 +35,7 @@ ASSUMPTIONS = [
     "sentinel value -7 (or True for bool) does not occur in source data",
 ]
 NSHARDS = {"quick": 16, "thorough": 32}
-PER_SHARD = {"quick": 90, "thorough": 1800}
+PER_SHARD = {"quick": 90, "thorough": 900}
 SENT = -7
 
 
@@ -343,7 +343,7 @@ def finalize(tier, merged):
     return {
         "rule": RULE,
         "floors": [
-            ("targets read back and compared with the paste model", c.get("targets_read_back", 0), 800 if tier == "quick" else 16000),
+            ("targets read back and compared with the paste model", c.get("targets_read_back", 0), 800 if tier == "quick" else 14000),
             ("distinct call-shape cells exercised", len(merged["hist"].get("config", {})), 40),
             ("rejected calls whose trace was inspected", c.get("rejected", 0), 100 if tier == "quick" else 2000),
         ],
